@@ -38,6 +38,38 @@ theorem C33_last_arm_unconditional (T : Table) : ∀ (arms : List Ty) (v : Val),
     have := C33_last_arm_unconditional T (q :: ps) v (by simp) (fun r hr => hall r (by simp [hr]))
     simp [armTaken, hp, this]
 
+/-- when no arm test raises (the recorded defect `C33-arm-test-type-error` does not strike), the emitted code takes `armTaken` -/
+theorem C33_outcome_of_no_crash (T : Table) : ∀ (arms : List (Ty × Bool)) (v : Val), (∀ a ∈ arms, crashesArm T a v = false) →
+    armOutcome T arms v = some (armTaken T (arms.map (·.1)) v)
+  | [], _, _ => by simp [armOutcome, armTaken]
+  | [a], v, h => by simp [armOutcome, armTaken, h a (by simp)]
+  | a :: b :: rest, v, h => by
+    have ha := h a (by simp)
+    have ih := C33_outcome_of_no_crash T (b :: rest) v (fun r hr => h r (by simp [hr]))
+    by_cases hc : contains T a.1 v = true <;> simp_all [armOutcome, armTaken]
+
+/-- recorded finding `C33-arm-test-type-error` — the property is FALSE of the code: `f(x: Nat or Str) = match x: (n: Nat) -> 0; _ -> 1`
+    is accepted, `"s0"` is a value of the scrutinee type, and the guard of the first arm raises before any arm is taken -/
+theorem C33_witness_arm_test_crash :
+    let s : Ty := .or (.cons (.mono genTable.iNat) (.cons (.mono genTable.iStr) .nil))
+    accepted genTable id s [.mono genTable.iNat, .mono genTable.iObj] = true ∧ den genTable s (.str 0) = true ∧
+    armOutcome genTable [(.mono genTable.iNat, false), (.mono genTable.iObj, false)] (.str 0) = none ∧
+    -- the integer literal arm `10` raises as well, the enum arm `(e: {10})` of the same type does not
+    armOutcome genTable [(.refine genTable.iNat (.eq 10), true), (.mono genTable.iObj, false)] (.str 0) = none ∧
+    armOutcome genTable [(.refine genTable.iNat (.eq 10), false), (.mono genTable.iObj, false)] (.str 0) = some 1 := by
+  decide +kernel
+
+/-- recorded finding `C33-nonexhaustive-accepted` — the property is FALSE of the code: `f(x: 0..3) = match x: (s: Str) -> 0; (i: 0..2) -> 1`
+    is accepted (C06's unsound `derefine` step), 3 is a value of the scrutinee type, no arm contains it, and the emitted code takes the
+    last arm; the repaired variant of C06 rejects the match -/
+theorem C33_witness_nonexhaustive_accepted :
+    let s : Ty := .refine genTable.iInt (.and (.ge 0) (.le 3))
+    let arms : List Ty := [.mono genTable.iStr, .refine genTable.iInt (.and (.ge 0) (.le 2))]
+    accepted genTable id s arms = true ∧ den genTable s (.int 3) = true ∧
+    (∀ p ∈ arms, contains genTable p (.int 3) = false) ∧ armTaken genTable arms (.int 3) = 1 ∧
+    superOf genTable Fx.repaired id (unionAll genTable id arms) s = false := by
+  decide +kernel
+
 /-- the facts about the class table the run-time test relies on (who is an instance of `Int`, `Nat`, `Str`, `Obj`) -/
 structure TableFacts (T : Table) : Prop where
   intBool : monoSup T T.iInt T.iBool = true
@@ -78,6 +110,50 @@ theorem denMono_str (T : Table) (F : TableFacts T) (c : Int) :
     denMono T T.iObj (.str c) = true := by
   simp [denMono, F.intStr, F.natStr, F.strStr, F.objStr]
 
+set_option linter.unusedSimpArgs false in
+/-- the class arms: `contains_operator(C, v)` is membership in ⟦C⟧ for `C ∈ {Int, Nat, Str, Obj}` on integers and strings -/
+theorem C33_contains_correct_class (T : Table) (F : TableFacts T) (k : Nat)
+    (hk : k = T.iInt ∨ k = T.iNat ∨ k = T.iStr ∨ k = T.iObj) (v : Val) (hv : scalarVal v = true) :
+    contains T (.mono k) v = den T (.mono k) v := by
+  obtain ⟨d1, d2, d3, d4, d5, d6⟩ := F.distinct
+  cases v with
+  | int i =>
+    have h := denMono_int T F i
+    rcases hk with rfl | rfl | rfl | rfl <;> simp [contains, den, h, d1, d2, d3, d4, d5, d6, Ne.symm d1, Ne.symm d2, Ne.symm d3, Ne.symm d4, Ne.symm d5, Ne.symm d6]
+  | str c =>
+    have h := denMono_str T F c
+    rcases hk with rfl | rfl | rfl | rfl <;> simp [contains, den, h, d1, d2, d3, d4, d5, d6, Ne.symm d1, Ne.symm d2, Ne.symm d3, Ne.symm d4, Ne.symm d5, Ne.symm d6]
+  | obj _ => simp [scalarVal] at hv
+  | list _ => simp [scalarVal] at hv
+  | tuple _ => simp [scalarVal] at hv
+
+set_option linter.unusedSimpArgs false in
+/-- interval and literal-enum arms: `Range.__contains__` / set membership is membership in ⟦{I: B | P}⟧ for `B ∈ {Int, Str}`, and for
+    `B = Nat` when the predicate only admits non-negative integers (a well-formed `Nat` enum/interval: `I >= 0 :> P`, C03) -/
+theorem C33_contains_correct_refine (T : Table) (F : TableFacts T) (b : Nat) (p : Pred) (v : Val) (hv : scalarVal v = true)
+    (hb : b = T.iInt ∨ b = T.iStr ∨ (b = T.iNat ∧ isSuperPred (Cfg.current id) (.ge 0) p = true)) :
+    contains T (.refine b p) v = den T (.refine b p) v := by
+  obtain ⟨d1, d2, d3, d4, d5, d6⟩ := F.distinct
+  cases v with
+  | int i =>
+    have h := denMono_int T F i
+    rcases hb with rfl | rfl | ⟨rfl, hp⟩
+    · simp [contains, den, h]
+    · simp [contains, den, h, Ne.symm d2, Ne.symm d4]
+    · have hs := isSuper_sound (Cfg.current id) (by simp [Cfg.current]) rfl (fun _ _ => Iff.rfl) _ (.ge 0) p hp i
+      simp only [contains, den, h, beq_self_eq_true, Bool.or_true, Bool.true_and]
+      cases hq : p.sat i
+      · simp
+      · have := hs hq; simp [Pred.sat] at this; simp [this]
+  | str c =>
+    have h := denMono_str T F c
+    rcases hb with rfl | rfl | ⟨rfl, _⟩
+    · simp [contains, den, h, d2]
+    · simp [contains, den, h]
+    · simp [contains, den, h, d4]
+  | obj _ => simp [scalarVal] at hv
+  | list _ => simp [scalarVal] at hv
+  | tuple _ => simp [scalarVal] at hv
 /-- `Context::union_pred` is EXACT: the union of two refinement predicates denotes the union of the sets, whatever branch is taken
     (absorption uses C03's soundness; the `or` smart constructor is C32's) -/
 theorem C33_union_pred_exact (ord : List Pred → List Pred) (hord : OrdOK ord) (l r : Pred) (i : Int) :
